@@ -1357,6 +1357,50 @@ func reachesAvoiding(s, goal, avoid *ssa.BasicBlock) bool {
 // the removal block's dominator chain end (it genuinely skips it within one iteration).
 func pathCanSkip(s, h, avoid *ssa.BasicBlock) bool { return s != avoid }
 
+// evalAssuming evaluates a boolean SSA value under an assumption about some of its comparison atoms: constants,
+// negation, comparisons (asked of assume), and φs of materialised && / || — an incoming edge counts when the branch
+// that leads into it is not refuted by the assumption, and the φ has a value when all such edges agree on one.
+func evalAssuming(v ssa.Value, assume func(*ssa.BinOp) (bool, bool), depth int) (bool, bool) {
+	if v == nil || depth > 8 {
+		return false, false
+	}
+	switch x := v.(type) {
+	case *ssa.Const:
+		return an.ConstBool(x)
+	case *ssa.UnOp:
+		if x.Op == token.NOT {
+			b, ok := evalAssuming(x.X, assume, depth+1)
+			return !b, ok
+		}
+	case *ssa.BinOp:
+		return assume(x)
+	case *ssa.Phi:
+		val, any := false, false
+		for i, e := range x.Edges {
+			pred := x.Block().Preds[i]
+			if ifi := an.BlockIf(pred); ifi != nil {
+				if c, known := evalAssuming(ifi.Cond, assume, depth+1); known {
+					takesTrue := pred.Succs[0] == x.Block()
+					takesFalse := len(pred.Succs) > 1 && pred.Succs[1] == x.Block()
+					if (c && !takesTrue) || (!c && !takesFalse) {
+						continue // this edge is not taken under the assumption
+					}
+				}
+			}
+			b, ok := evalAssuming(e, assume, depth+1)
+			if !ok {
+				return false, false
+			}
+			if any && b != val {
+				return false, false
+			}
+			val, any = b, true
+		}
+		return val, any
+	}
+	return false, false
+}
+
 // ---- SH-CONVERT-MARK ----
 
 func runConvertMark(c *core.Ctx) {
@@ -1460,16 +1504,34 @@ func runConvertMark(c *core.Ctx) {
 			if ifi == nil {
 				return s, true
 			}
-			if x, y, op, ok := an.CmpTest(ifi); ok && isTrueStr(y) {
-				if lk, isLk := an.Strip(x).(*ssa.Lookup); isLk && isConvKey(lk.Index) {
-					// annotations[convert] != "true"
-					if (op == token.NEQ && succ == 0) || (op == token.EQL && succ == 1) {
-						// only the test that guards the conversion (the one also guarded by the referrers setting being on)
-						t, _ := settingGuards(from)
-						if t["API.Referrer.Enabled"] {
-							s.inConv = true
+			// the ‘not yet converted’ edge: an edge that cannot be taken when the index carries the converted annotation — the
+			// condition, evaluated under ‘annotations != nil’ and ‘annotations[convert] == "true"’, has the other value (the
+			// test may be written out, or computed into a variable beforehand: converted := a != nil && a[k] == "true")
+			if v, known := evalAssuming(ifi.Cond, func(atom *ssa.BinOp) (bool, bool) {
+				if atom.Op != token.EQL && atom.Op != token.NEQ {
+					return false, false
+				}
+				for _, pair := range [][2]ssa.Value{{atom.X, atom.Y}, {atom.Y, atom.X}} {
+					if isTrueStr(pair[1]) {
+						if lk, isLk := an.Strip(pair[0]).(*ssa.Lookup); isLk && isConvKey(lk.Index) {
+							return atom.Op == token.EQL, true
 						}
 					}
+					if an.IsNilConst(pair[1]) {
+						if _, isMap := pair[0].Type().Underlying().(*types.Map); isMap {
+							if _, p := accessPath(an.Strip(pair[0])); len(p) > 0 && p[len(p)-1] == "Annotations" {
+								return atom.Op == token.NEQ, true
+							}
+						}
+					}
+				}
+				return false, false
+			}, 0); known && ((v && succ == 1) || (!v && succ == 0)) {
+				// only the test that guards the conversion (the one also guarded by the referrers setting being on)
+				t, _ := settingGuards(from)
+				t2, _ := settingGuards(from.Succs[succ])
+				if t["API.Referrer.Enabled"] || t2["API.Referrer.Enabled"] {
+					s.inConv = true
 				}
 			}
 			return s, true
